@@ -1,3 +1,2 @@
 import PieModel.Props.C02
-open PieModel
-#print axioms C02_placeholder
+#print axioms PieModel.C02_placeholder
